@@ -331,8 +331,43 @@ func init() {
 			}
 			fmt.Fprintf(out, "%d\t%d\t%d\t%s\tstartpos moves %s\n", countMen(fenOfPos(gen.VerifTop())), nl, chk, src, strings.Join(moves, " "))
 		}
+		emitFenList := func(fen string, moves []string, src string) {
+			gen, err := engine.NewGeneratorFromFen(fen)
+			if err != nil {
+				return
+			}
+			for _, m := range moves {
+				// only legal moves: ApplyUciMove panics on an illegal one by design
+				legal := false
+				for _, l := range legalMoves(gen) {
+					if l.text == m {
+						legal = true
+					}
+				}
+				if !legal {
+					return
+				}
+				if err := engine.VerifApplyUci(gen, m); err != nil {
+					return
+				}
+			}
+			nl := len(strings.Fields(engine.VerifLegal(gen)))
+			chk := 0
+			if engine.VerifInCheck(gen.VerifTop()) {
+				chk = 1
+			}
+			fmt.Fprintf(out, "%d\t%d\t%d\t%s\t%s moves %s\n", countMen(fenOfPos(gen.VerifTop())), nl, chk, src, fen, strings.Join(moves, " "))
+		}
 		for _, f := range corpusFens {
 			emit(f, "corpus")
+		}
+		// a piece that is NOT a pawn moves two ranks from its side's pawn rank, given as a move list, and an enemy pawn stands
+		// beside its destination: the move-list path must not leave an en-passant square behind
+		for i := 0; i < n/4+4; i++ {
+			fen, mv := twoRankBesidePawn(r)
+			if fen != "" {
+				emitFenList(fen, []string{mv}, "movelist-2rank-beside-pawn")
+			}
 		}
 		for _, f := range mateFens {
 			emit(f, "mate-corpus")
@@ -700,4 +735,65 @@ func engineSnapOfFen(fen string) string {
 		return ""
 	}
 	return engine.VerifSnapshot(g.VerifTop())
+}
+
+// a FEN and a move: a rook/queen/bishop/knight goes from rank 2 to rank 4 (white) or 7 to 5 (black), an enemy pawn stands on
+// the destination rank on a neighbouring file, the mover is not a pawn
+func twoRankBesidePawn(r *rng) (string, string) {
+	cells := map[int]byte{}
+	white := r.chance(1, 2)
+	fromRank, toRank := 1, 3
+	if !white {
+		fromRank, toRank = 6, 4
+	}
+	kind := "RQBN"[r.intn(4)]
+	ff := r.intn(8)
+	tf := ff
+	switch kind {
+	case 'B':
+		tf = ff + []int{-2, 2}[r.intn(2)]
+	case 'N':
+		tf = ff + []int{-1, 1}[r.intn(2)]
+	case 'Q':
+		tf = ff + []int{-2, 0, 0, 2}[r.intn(4)]
+	}
+	if tf < 0 || tf > 7 {
+		return "", ""
+	}
+	pf := tf + []int{-1, 1}[r.intn(2)]
+	if pf < 0 || pf > 7 {
+		return "", ""
+	}
+	pc, pawn := kind, byte('p')
+	if !white {
+		pc, pawn = kind+32, 'P'
+	}
+	cells[sq(ff, fromRank)] = pc
+	cells[sq(pf, toRank)] = pawn
+	// keep the path and the midpoint free: reserve them while placing the rest
+	reserved := map[int]bool{sq(tf, toRank): true, sq((ff+tf)/2, (fromRank+toRank)/2): true, sq(pf, (fromRank+toRank)/2): true}
+	free := func() int {
+		for {
+			s := sq(r.intn(8), r.intn(8))
+			if _, used := cells[s]; !used && !reserved[s] {
+				return s
+			}
+		}
+	}
+	cells[free()] = 'K'
+	cells[free()] = 'k'
+	for i := 0; i < r.intn(4); i++ {
+		c := "NBRnbrPp"[r.intn(8)]
+		s := free()
+		if (c|32) == 'p' && (s>>4 == 0 || s>>4 == 7) {
+			continue
+		}
+		cells[s] = c
+	}
+	side := "w"
+	if !white {
+		side = "b"
+	}
+	mv := fmt.Sprintf("%c%d%c%d", 'a'+ff, fromRank+1, 'a'+tf, toRank+1)
+	return fenFromMap(cells, side, "-", "-", 1+r.intn(40)), mv
 }
